@@ -604,6 +604,14 @@ async fn grid_d(p: &EpParams, case: u64) -> EpReport {
         }
     }
     su.seq.check_stats("Modify").await;
+    // nothing is left behind that fires later: eleven more minutes (longer than any deadline a
+    // modification can set), then the same comparison again
+    let later = su.seq.now() + 660 * SEC;
+    su.seq.advance_to(later).await;
+    if stream {
+        su.seq.check_streams_drained(&mut rep);
+    }
+    su.seq.check_stats("Advance").await;
     su.seq.flush(&mut rep);
     rep.nontrivial = true;
     rep.inc("mixed_batches_checked");
